@@ -60,12 +60,6 @@ def start_graphs(tier, rng):
         yield 'trees', dict(trees=trees, L=L)
 
 
-def source_length(src):
-    if 'graph' in src:
-        return len(hg.graph_widths_gd(src['graph'])) - 1
-    return src['L']
-
-
 def id_assignments(rng, gd1, other):
     """id assignments [node ids, edge ids] for the second graph from a range colliding with the first"""
     n1 = [n[0] for n in gd1['nodes']] if gd1 else [0, 1]
@@ -128,11 +122,15 @@ def _gd_length(gd):
     out = {}
     for e in gd['edges']:
         out.setdefault(e[1], []).append(e[2])
-    n, k = gd['term'][0], 0
-    while n != gd['term'][1]:
-        n = out[n][0]
-        k += 1
-    return k
+    lev = {gd['term'][0]: 0}
+    todo = [gd['term'][0]]
+    while todo:
+        n = todo.pop()
+        for m in out.get(n, []):
+            if m not in lev:
+                lev[m] = lev[n] + 1
+                todo.append(m)
+    return lev[gd['term'][1]]
 
 
 def build_source(src):
@@ -159,9 +157,10 @@ class Checker:
     def __init__(self, c):
         self.fails = []
         self.qual = ':dangling' if c['tag'] == 'dang' else ''
+        self.extra = ''
 
     def fail(self, fn, clause, detail):
-        self.fails.append(dict(clause=clause, detail=detail, signature=f'OpGraph.{fn}:{clause}{self.qual}'))
+        self.fails.append(dict(clause=clause, detail=detail, signature=f'OpGraph.{fn}:{clause}{self.extra}{self.qual}'))
 
     def call(self, fn, f):
         """run a rewrite; exception -> failure"""
@@ -171,7 +170,7 @@ class Checker:
         except Exception as e:
             name, line, where = hg.exc_info(e)
             self.fail(fn, 'returns', f'{fn} raised {name} at {where} ({line.strip()}): {e}')
-            self.fails[-1]['signature'] = f'OpGraph.{fn}:returns:{name}{self.qual}'
+            self.fails[-1]['signature'] = f'OpGraph.{fn}:returns:{name}{self.extra}{self.qual}'
             return False
 
     def after(self, fn, g, expected, what=''):
@@ -232,10 +231,10 @@ def run_case(c):
         nontrivial = nontrivial and bool(pairs)
         for e1, e2, direction, branch in pairs:
             h = build_source(src)
+            ck.extra = f':{branch}'
             if ck.call('merge_edges', lambda: h.merge_edges(e1, e2, direction)):
                 ck.after('merge_edges', h, p0, f'({e1},{e2},{direction}) [{branch}]')
             if ck.fails:
-                ck.fails[-1]['signature'] += f':{branch}' if not ck.fails[-1]['signature'].endswith(branch) else ''
                 break
 
     elif kind == 'rename':
@@ -324,8 +323,6 @@ def run_case(c):
                     break
             elif op == 'add':
                 o = build_other(c, 0)
-                if steps.count('flip') % 2:
-                    o.flip()            # same orientation as the current graph (harness-side use of flip is checked by the polynomial below)
                 po = hg.graph_poly(o)
                 dump = hg.graph_dump(o)
                 expected = hg.p_add(expected, po)
